@@ -421,6 +421,42 @@ def run(repo, outdir):
     if sorted(r_[0] for r_ in lit_rules) != [8, 10, 16]:
         unparsed.append("lexer.l integer literal rules (radices %s)" % sorted(r_[0] for r_ in lit_rules))
 
+    # parser.c phase 2: between the head of the loop over the rule's strings and `strings_in_rule++` nothing leaves the iteration
+    # (`continue` / `break` / `goto`); the only exit before the count is the ERROR_UNREFERENCED_STRING return
+    mloop = re.search(r"yr_rule_strings_foreach\s*\(\s*rule\s*,\s*string\s*\)\s*\{(.*?)strings_in_rule\s*\+\+\s*;", parserc, flags=re.S)
+    spr_counts_all = False
+    if mloop:
+        pre = mloop.group(1)
+        rets = re.findall(r"\breturn\s+(\w+)", pre)
+        spr_counts_all = re.search(r"\b(continue|break|goto)\b", pre) is None and rets in ([], ["ERROR_UNREFERENCED_STRING"])
+    else:
+        unparsed.append("parser.c phase 2 string loop")
+
+    # scanner.c yr_scanner_scan_mem_blocks: the stopwatch is started once, in the branch that begins a NEW scan (next to
+    # iterator->first), not on the path a resumed scan (last_error == ERROR_BLOCK_NOT_READY) takes
+    mfn = re.search(r"\byr_scanner_scan_mem_blocks\s*\([^)]*\)\s*\{(.*?)\n\}", scannerc, flags=re.S)
+    restarts_on_resume = True
+    if mfn:
+        n_start = len(re.findall(r"\byr_stopwatch_start\s*\(", mfn.group(1)))
+        in_new = re.search(r"else\s*\{(?:(?!\n  \}).)*?yr_stopwatch_start\s*\(\s*&scanner->stopwatch\s*\)\s*;\s*block\s*=\s*iterator->first\s*\(\s*iterator\s*\)\s*;\s*\}",
+                           mfn.group(1), flags=re.S)
+        restarts_on_resume = not (n_start == 1 and in_new is not None)
+    else:
+        unparsed.append("scanner.c yr_scanner_scan_mem_blocks")
+
+    # compiler.c yr_compiler_add_file: the file name is pushed under `file_name != NULL`; is it popped under the same condition?
+    mfn = re.search(r"\byr_compiler_add_file\s*\([^)]*\)\s*\{(.*?)\n\}", compc, flags=re.S)
+    add_file_pops = False
+    if mfn:
+        pushg = re.search(r"if\s*\(([^{};]*?)\)\s*compiler->last_error\s*=\s*_yr_compiler_push_file_name\s*\(\s*compiler\s*,\s*file_name\s*\)", mfn.group(1))
+        popg = re.search(r"if\s*\(\s*(\w+)\s*!=\s*NULL\s*\)\s*_yr_compiler_pop_file_name\s*\(\s*compiler\s*\)\s*;", mfn.group(1))
+        if pushg and popg:
+            add_file_pops = popg.group(1) == "file_name" and re.search(r"\bfile_name\s*!=\s*NULL", pushg.group(1)) is not None
+        else:
+            unparsed.append("compiler.c yr_compiler_add_file push/pop of the file name")
+    else:
+        unparsed.append("compiler.c yr_compiler_add_file")
+
     guards = []
 
     def guard(lean, what, text, pattern, cmp_override=None):
@@ -627,6 +663,16 @@ def run(repo, outdir):
     out.append("  deriving DecidableEq, Repr")
     out.append("")
     out.append("def cfgKeys : List CfgKey := [%s]" % ", ".join('⟨"%s", %d, %d, %d, %d, %d, %d, %d⟩' % r_ for r_ in rows))
+    out.append("")
+    out.append("/-- parser.c `yr_parser_reduce_rule_declaration_phase_2`: every string of the rule that passes the unreferenced-string test reaches")
+    out.append("    `strings_in_rule++` (no `continue`/`break`/`goto` before it in the loop body) -/")
+    out.append("def sprCountsEveryString : Bool := %s" % ("true" if spr_counts_all else "false"))
+    out.append("")
+    out.append("/-- scanner.c `yr_scanner_scan_mem_blocks`: is `yr_stopwatch_start` (also) on the path of a scan RESUMED after ERROR_BLOCK_NOT_READY? -/")
+    out.append("def stopwatchRestartsOnResume : Bool := %s" % ("true" if restarts_on_resume else "false"))
+    out.append("")
+    out.append("/-- compiler.c `yr_compiler_add_file`: the name pushed under `file_name != NULL` is popped under the same condition -/")
+    out.append("def addFilePopsOwnName : Bool := %s" % ("true" if add_file_pops else "false"))
     out.append("")
     out.append("/-- lexer.l integer literal rules: (radix, `errno = 0;` directly before the `strtoll` whose `errno == ERANGE` is tested) -/")
     out.append("def litRules : List (Nat × Bool) := [%s]" % ", ".join("(%d, %s)" % (a_, "true" if b_ else "false") for a_, b_ in lit_rules))
